@@ -1370,6 +1370,15 @@ func (w *responseWriter) close() {
 
 func (w *responseWriter) writeEnd(end *responseEnd, wasInHeaders bool) {
 	trailers := w.op.client.protocol.encodeEnd(w.op, end, w.delegate, wasInHeaders)
+	if len(trailers) > 0 {
+		// The outcome is carried by trailers. Remove any status the handler itself left
+		// among the trailers, so that it cannot override or mix with this one.
+		hdr := w.Header()
+		for _, key := range [...]string{"Grpc-Status", "Grpc-Message", "Grpc-Status-Details-Bin"} {
+			delete(hdr, key)
+			delete(hdr, http.TrailerPrefix+key)
+		}
+	}
 	httpMergeTrailers(w.Header(), trailers)
 	w.endWritten = true
 }
